@@ -431,3 +431,23 @@ func smtModel(model map[string]uint64, t *Term) map[string]uint64 {
 	}
 	return r
 }
+
+// Entered returns the functions interpreted, grouped by package path.
+func (e *Explorer) Entered() map[string][]string {
+	res := map[string][]string{}
+	for f := range e.entered {
+		p := "?"
+		if f.Pkg != nil {
+			p = f.Pkg.Pkg.Path()
+		} else if o := f.Origin(); o != nil && o.Pkg != nil {
+			p = o.Pkg.Pkg.Path()
+		} else if par := f.Parent(); par != nil && par.Pkg != nil {
+			p = par.Pkg.Pkg.Path()
+		}
+		res[p] = append(res[p], f.String())
+	}
+	return res
+}
+
+// Lenient returns the body-less functions called during lenient std initialisation.
+func (e *Explorer) Lenient() map[string]int { return e.lenient }
